@@ -262,6 +262,112 @@ def schema_phase(ctx, run_, rng, cov):
     return len(cases)
 
 
+def big_value_of(mo):
+    """the value bytes of a decoded Opaque Object / Secret Data"""
+    if hasattr(mo, "opaque_data_value"):
+        return bytes(mo.opaque_data_value.value)
+    return bytes(mo.key_block.key_value.key_material.value)
+
+
+def big_phase(ctx, cov):
+    """Values, payloads and whole messages at and beyond 4 KiB / 64 KiB / 128 KiB, up to the megabyte a server accepts
+    in one request (a Locate response lists every match, a Get returns the whole object): decode(encode v) == v,
+    nothing left over, re-encoding gives the same bytes; under every KMIP version.  Implementation alone (the sizes
+    are beyond what is worth sending through the JSON line protocol; M2's round-trip theorem is unbounded)."""
+    import impl_engine as IE
+    from kmip.core import enums, utils, primitives
+    from kmip.core.messages import messages, contents, payloads
+    rng = random.Random(ctx.seed * 7 + 5)
+    sizes = [4096, 32768, 65519, 65527, 65528, 65529, 65536, 65537, 70000, 131072, 140000]
+    if ctx.tier != "quick":
+        sizes += [262144, 300001, 524288, (1 << 20) - 64, (1 << 20) + 8]
+    n = 0
+    for sz in sizes:
+        vals = [("ByteString", rng.randbytes(sz)), ("TextString", "t" * sz), ("TextString", "\u00e9" * (sz // 2) + "x" * (sz % 2)),
+                ("BigInteger", (1 << (8 * sz - 1)) - 1), ("BigInteger", -(1 << (8 * sz - 9)) - 5)]
+        for kind, val in vals:
+            tag = IC.TAG_POOL[(sz + len(kind)) % len(IC.TAG_POOL)]
+            case = (kind, None, val, tag)
+            r, o = CC.run_prim_impl(case)
+            n += 1
+            if r["enc"] is None:
+                ctx.report("c01:big-value-not-encodable:%s" % kind, "%s of %d bytes: %s" % (kind, sz, r["exc"]),
+                           {"kind": "big", "what": "prim", "class": kind, "size": sz})
+                continue
+            for f in CC.prim_roundtrip_faults(case, o, r["enc"]):
+                ctx.report("c01:big-value-roundtrip:%s:%s" % (kind, f.split(" ")[0]), "%s of %d bytes: %s" % (kind, sz, f[:200]),
+                           {"kind": "big", "what": "prim", "class": kind, "size": sz, "seed": ctx.seed})
+    versions = [(1, 0), (1, 2), (1, 4), (2, 0)] if ctx.tier == "quick" else [(1, 0), (1, 1), (1, 2), (1, 3), (1, 4), (2, 0)]
+
+    def kv(v):
+        return getattr(enums.KMIPVersion, "KMIP_%d_%d" % v)
+
+    def roundtrip(label, msg, cls, v, probe):
+        """encode, decode with a fresh message, re-encode; `probe(decoded)` = the big part as plain data"""
+        s = utils.BytearrayStream()
+        try:
+            msg.write(s, kmip_version=kv(v))
+        except Exception as e:
+            ctx.report("c01:big-message-not-encodable:%s" % label, "%s under %d.%d: %s: %s" % (label, v[0], v[1], type(e).__name__, str(e)[:120]),
+                       {"kind": "big", "what": label, "version": list(v)})
+            return
+        b = bytes(s.buffer)
+        m2 = cls()
+        try:
+            s2 = utils.BytearrayStream(b)
+            m2.read(s2, kmip_version=kv(v))
+            left = len(s2.buffer)
+            got = probe(m2)
+            s3 = utils.BytearrayStream()
+            m2.write(s3, kmip_version=kv(v))
+            b3 = bytes(s3.buffer)
+        except Exception as e:
+            ctx.report("c01:big-message-roundtrip:%s:decode-rejects-own-encoding" % label,
+                       "%s (%d bytes) under %d.%d: the library cannot decode what it encoded: %s: %s"
+                       % (label, len(b), v[0], v[1], type(e).__name__, str(e)[:120]), {"kind": "big", "what": label, "version": list(v)})
+            return
+        if left:
+            ctx.report("c01:big-message-roundtrip:%s:residue" % label, "%s: %d bytes left" % (label, left), {"kind": "big", "what": label, "version": list(v)})
+        if got != probe(msg):
+            ctx.report("c01:big-message-roundtrip:%s:decoded-differs" % label, "%s (%d bytes) under %d.%d: the decoded message differs from "
+                       "the original" % (label, len(b), v[0], v[1]), {"kind": "big", "what": label, "version": list(v)})
+        if b3 != b:
+            ctx.report("c01:big-message-roundtrip:%s:re-encode-differs" % label, "%s (%d bytes) under %d.%d" % (label, len(b), v[0], v[1]),
+                       {"kind": "big", "what": label, "version": list(v)})
+    for v in versions:
+        ver = v[0] * 10 + v[1]
+        # requests: Register of a large opaque object / secret, a batch of many small items
+        for sz in (70000 + ver,) if ctx.tier == "quick" else (65528, 70000, 200000, 900000):
+            for otype, extra in ((8, {"subtype": 0x80000000}), (7, {"subtype": 1, "format": 2})):
+                if ctx.tier == "quick" and (otype == 8) != (ver in (10, 14)):
+                    continue
+                obj = dict({"otype": otype, "value": rng.randbytes(sz).hex(), "alg": None, "len": None, "format": None, "subtype": None}, **extra)
+                req = {"version": ver, "ts": 1000, "async": None, "bopt": None, "maxsize": None,
+                       "items": [{"op": "register", "bid": None, "crypto": None, "otype": otype,
+                                  "tmpl": {"tnames": 0, "attrs": []}, "obj": obj}]}
+                n += 1
+                roundtrip("register-%d" % otype, IE.build_request(req), messages.RequestMessage, v,
+                          lambda m: [big_value_of(bi.request_payload.managed_object) for bi in m.batch_items])
+        items = [{"op": "get", "bid": "b%05d" % i, "uid": str(i), "wrap": None, "format": None, "compression": False} for i in range(2500)]
+        req = {"version": ver, "ts": 1000, "async": None, "bopt": None, "maxsize": None, "items": items}
+        n += 1
+        roundtrip("batch-2500", IE.build_request(req), messages.RequestMessage, v,
+                  lambda m: [(bi.unique_batch_item_id.value if bi.unique_batch_item_id else None, bi.request_payload.unique_identifier) for bi in m.batch_items])
+        # responses: a Locate answer with many identifiers, a Get answer with a large key
+        for count in (1400, 2500) if ctx.tier == "quick" else (1400, 2500, 6000, 20000):
+            pl = payloads.LocateResponsePayload(unique_identifiers=[str(i) for i in range(1, count + 1)])
+            hdr = messages.ResponseHeader(protocol_version=contents.ProtocolVersion(v[0], v[1]), time_stamp=contents.TimeStamp(1000),
+                                          batch_count=contents.BatchCount(1))
+            item = messages.ResponseBatchItem(operation=contents.Operation(enums.Operation.LOCATE),
+                                              result_status=contents.ResultStatus(enums.ResultStatus.SUCCESS), response_payload=pl)
+            n += 1
+            roundtrip("locate-response-%d" % count, messages.ResponseMessage(response_header=hdr, batch_items=[item]),
+                      messages.ResponseMessage, v, lambda m: [list(bi.response_payload.unique_identifiers) for bi in m.batch_items])
+    cov["big_cases"] = n
+    cov["big_sizes"] = sizes
+    return n
+
+
 def run_corpus(ctx):
     """minimised past failures first (corpus/C01/*.json): each must hold now; a failure is reported under the
     signature it was found with"""
@@ -305,6 +411,9 @@ def run(ctx):
     cov.update(sg)
     n_schema += sg.get("schema_gen_cases", 0)
     cov["schema_gen_wall_s"] = round(time.time() - t3, 1)
+    t4 = time.time()
+    n_schema += big_phase(ctx, cov)
+    cov["big_wall_s"] = round(time.time() - t4, 1)
     ctx.notes += sorted(cov.pop("notes"))
     ctx.coverage.update(cov)
     ctx.coverage["evaluations"] = cov["prim_values"] + cov["prim_decodes"] + run_.evaluations + n_schema
@@ -397,6 +506,15 @@ def replay(ctx, rep):
             print("  refused the second time: %s: %s" % (type(e).__name__, e))
             return False
         return not IC.diff(d1, d2)
+    if r.get("kind") == "big":
+        # the whole big phase again (deterministic in the seed): holds iff it reports nothing
+        class _C(object):
+            pass
+        sub = _C()
+        sub.seed, sub.tier, sub.bad = r.get("seed", rep.get("seed", 0)), rep.get("tier", "quick"), []
+        sub.report = lambda sig, what, rp=None, **kw: (sub.bad.append(sig), print("  %s: %s" % (sig, what[:200])))
+        big_phase(sub, {})
+        return not sub.bad
     if r.get("kind") == "prim":
         c = _prim_from_replay(r)
         res, o = CC.run_prim_impl(c)
